@@ -89,14 +89,15 @@ def thrClauses (s : State) (t : Tid) : List (String × Bool) :=
     ("held_id", match holdsRef th.pc with | some r => (e r).id == th.op.id | none => true),
     ("started", th.started || th.pc == firstPc th.op) ]
 
-/-- progress of the `Close()` call that set `closed` -/
+/-- `CloseRun` for every thread whose operation is `Close()` -/
 def closeProgress (s : State) : Bool :=
-  !s.closed || (List.range s.nThr).any (fun t =>
+  (List.range s.nThr).all (fun t =>
     let th := s.thr t
-    th.op == .close && (match th.pc with
-      | .done (.errOnly none) => (refs s).all (fun r => !inMapB s r)
+    th.op != .close || (match th.pc with
+      | .done (.errOnly none) => s.closed && (refs s).all (fun r => !inMapB s r)
       | .rmWaitLoad r | .rmSetClosing r | .rmClosingWait r _ | .inClose r _ =>
-        (refs s).all (fun r' => !inMapB s r' || r' == r || th.todo.contains r')
+        s.closed && (refs s).all (fun r' => !inMapB s r' || r' == r || th.todo.contains r')
+      | .closeCollect | .done _ => true
       | _ => false))
 
 def stateClauses (s : State) : List (String × Bool) :=
